@@ -384,7 +384,8 @@ def check_offset_arithmetic(run, rule):
     stores = [i for i, st in enumerate(sts) if isinstance(unwrap(st), dict) and unwrap(st).get("k") == "Bin" and unwrap(st).get("op") == "=" and
               path(unwrap(st).get("lhs")) and path(unwrap(st)["lhs"])[0] == "this"]
     if idx is None or not stores or stores[0] <= idx:
-        run.ob(rule, "add_time_offset:moves-by-offset", None, f, f["line"], "the tick count `m_secs * rate + m_ticks` in a local, followed by the member stores, was not found")
+        # another shape (a helper with a result struct, a per-rate switch ..): not decided by this rule
+        run.info["add_time_offset_form"] = "not the straight-line form (tick count in a local, then the member stores): R17.7 not applied"
         return
     env = {tick_key: affine.Lin.sym("T")}
     affine.THROW_IS_OUTCOME = True
@@ -394,7 +395,7 @@ def check_offset_arithmetic(run, rule):
         finally:
             affine.THROW_IS_OUTCOME = False
     except affine.NotAffine as ex:
-        run.ob(rule, "add_time_offset:moves-by-offset", None, f, f["line"], "not linear: %s" % ex)
+        run.info["add_time_offset_form"] = "not linear (%s): R17.7 not applied" % ex
         return
     want = affine.Lin.sym("T") + affine.Lin.sym(off)
     n = 0
